@@ -99,14 +99,14 @@ impl Args {
         }
         let thorough = a.tier == "thorough";
         if a.ip_plans == 0 {
-            a.ip_plans = if thorough { 16 } else { 12 };
+            a.ip_plans = if thorough { 10 } else { 7 };
         }
         if a.ex_plans == 0 {
             a.ex_plans = if thorough { 8 } else { 5 };
         }
         if a.ip_groups == 0 {
             // harvested programs come first, generated ones after; thorough is time-boxed instead
-            a.ip_groups = if thorough { usize::MAX } else { 4400 };
+            a.ip_groups = if thorough { usize::MAX } else { 7400 };
         }
         if a.ex_groups == 0 {
             a.ex_groups = if thorough { usize::MAX } else { 440 };
